@@ -157,5 +157,11 @@ def shapes(slice_i, n):
         yield {"model": spec, "points": None, "forms": [0, 4, 1, 5, 2, 3], "ov": []}
 
 
+def mixed(slice_i, n):
+    from vf import strategies as S_
+    for spec in S_.mixed_shapes(slice_i, n):
+        yield {"model": spec, "points": None, "forms": [0, 4, 1, 5, 2, 3], "ov": []}
+
+
 def parts(tier):
-    return [Part("shapes%d" % i, enumerate_cases=(lambda t, i=i: shapes(i, 4)), check=check, time_quick=120.0) for i in range(4)] + [Part("evaluate", strategy=lambda t: case_strategy(t), check=check, quick=(8, 200), thorough=(16, 1500))]
+    return [Part("mixed%d" % i, enumerate_cases=(lambda t, i=i: mixed(i, 8)), check=check, time_quick=150.0) for i in range(8)] + [Part("shapes%d" % i, enumerate_cases=(lambda t, i=i: shapes(i, 4)), check=check, time_quick=120.0) for i in range(4)] + [Part("evaluate", strategy=lambda t: case_strategy(t), check=check, quick=(8, 200), thorough=(16, 1500))]
